@@ -452,7 +452,13 @@ class Runner:
         info = dict(out=out, evs=evs, fired=fired)
         if model_line is not None:
             if fired and out != 'ok' and fault_k is not None:
-                self.emit('fault %d' % fault_k(info), 'ok' + (' d=- b=1' if cls else ''), label)
+                k = fault_k(info)
+                if k == 0:
+                    # the call failed before touching the data file at a raw operation the model does not
+                    # have; without the call the model is in the same state (nothing voted)
+                    self.count('model-skip:' + name)
+                    return info
+                self.emit('fault %d' % k, 'ok' + (' d=- b=1' if cls else ''), label)
             elif fired:
                 self.count('fault-absorbed:' + name)
             self.emit(model_line, out + cls, label)
@@ -824,7 +830,9 @@ class Runner:
             ev = info['fired'][-1]          # the operation that raised (a short write may precede it)
             tmp_ops = 1 if nrec_ok[0] > 0 else 0
             if ev[3].endswith('.tmp'):
-                return 1
+                # the temp-file flush of the vote; the model has one only if IT staged records (an undo
+                # stages records the model does not know): 0 = leave this call out of the model
+                return 1 if tmp_ops else 0
             j = 1 + sum(1 for x in info['evs'][:info['evs'].index(ev)]
                         if x[0] == 'write' and x[1] == 'Data.fs')
             m = 2 + nrec_ok[0]
